@@ -45,8 +45,31 @@ def tree_hash(path: str) -> str | None:
         for fn in sorted(filenames):
             h.update(b"F" + fn.encode())
             with open(os.path.join(dirpath, fn), "rb") as f:
-                h.update(hashlib.sha256(f.read()).digest())
+                blob = f.read()
+            h.update(hashlib.sha256(_canonical_trees(blob) if fn == "trees.pkl" else blob).digest())
     return h.hexdigest()
+
+
+def _canonical_trees(blob: bytes) -> bytes:
+    """The pickle of a scipy cKDTree contains its node array with the padding bytes of the C
+    struct, which are uninitialised memory: equal trees do not pickle to equal bytes.  For the
+    state digest a ``trees.pkl`` is therefore described by what it means (per tree: number of
+    records, sum of weights, the point array, the weights) or, when it cannot be unpickled (a
+    truncated file), by its length alone."""
+    import pickle
+
+    try:
+        obj = pickle.loads(blob)
+        trees = obj if isinstance(obj, tuple) else (obj,)
+        out = hashlib.sha256(b"tuple" if isinstance(obj, tuple) else b"single")
+        for t in trees:
+            out.update(repr((int(t.num_records), float(t.sum_weights))).encode())
+            out.update(np.ascontiguousarray(t.tree.data).tobytes())
+            if t.weights is not None:
+                out.update(np.ascontiguousarray(t.weights).tobytes())
+        return out.digest()
+    except Exception:  # noqa: BLE001
+        return b"unreadable:%d" % len(blob)
 
 
 def case_records(case: dict):
